@@ -1516,4 +1516,17 @@ def docInputsBack {V : Type} (d : Doc2 V) : Bool :=
   d.defs.all (fun ks => defSimpleBack ks.2) &&
   (d.loc.host != "" && d.loc.schemes.all schemeOK)
 
+/-! ## §11 names of body parameters (FromV3Operation's error outcome) -/
+
+/-- a body parameter has a name (required by OpenAPI 2) -/
+def namedBody {V : Type} : PRef2 V → Bool
+  | .ref _ _ => true
+  | .val p => p.loc != "body" || p.name != ""
+
+/-- body parameters have names, and an operation with form parameters consumes form media types only -/
+def opNamed {V : Type} (dc : List String) (o : Op2 V) : Bool :=
+  o.params.all namedBody && ((formVals o.params).isEmpty || (effConsumes dc o).all isFormMime)
+
+def docNamed {V : Type} (d : Doc2 V) : Bool := d.paths.all (fun p => p.ops.all (opNamed d.consumes))
+
 end KinModel.Conv
